@@ -97,6 +97,14 @@ fn crash_def(id: &'static str, generate: fn(u64, u64, Tier) -> Value, exec: fn(&
     }
 }
 
+fn c13_gen(seed: u64, run: u64, tier: Tier) -> Value {
+    serde_json::to_value(crate::cabort::generate(seed, run, tier)).unwrap()
+}
+fn c13_exec(plan: &Value, t: &mut Trials) -> RunReport {
+    let plan: crate::cabort::Plan = serde_json::from_value(plan.clone()).expect("bad plan");
+    crate::cabort::exec(&plan, t)
+}
+
 const MODEL_RULE: &str = "histories = seeded sequences of public-API queries (node/edge/value/alias/index inserts, updates, removals by id, alias and search, explicit transactions with a seeded abort point) executed on one of the six database variants over SimFs, half of them interleaved with clean restarts (only durable state survives), reopening with another file-backed variant, optimize_storage and shrink_to_fit, plus benign I/O noise and the forced contended-read path; evaluations = points at which the complete observable state (every read query over every element, alias, index and the elements search, plus slice/selection probes) was compared with the abstract model; distinct_nontrivial = distinct histories (program hash) containing at least one removal and then either an id reuse or a hash-table rehash (probe)";
 const MODEL_ASSUME: &[&str] = &[
     "the model takes new element ids from the database's answer (checking sign and freshness) and search targets from the database's own search result, so it carries no id-allocation or search semantics",
@@ -133,6 +141,26 @@ pub fn all() -> Vec<CheckDef> {
     let mut v = all_storage();
     v.push(crash_def("C02", c02_gen, c02_exec));
     v.push(crash_def("C03", c03_gen, c03_exec));
+    v.push(CheckDef {
+        id: "C13",
+        level: "exploration",
+        generate: c13_gen,
+        exec: c13_exec,
+        steps: "/steps",
+        runs: |t| match t {
+            Tier::Quick => 6000,
+            Tier::Thorough => 600_000,
+        },
+        wall_cap_s: |t| match t {
+            Tier::Quick => 150,
+            Tier::Thorough => 1500,
+        },
+        rule: "histories = seeded query histories on all six variants in which the simulator chooses the abort point: explicit transactions of 1-6 mutating queries whose closure returns an error after query k, queries inside a transaction that fail logically (missing element, empty alias, length mismatch, existing index) after earlier queries succeeded, and single queries that fail after partial work; evaluations = failed steps, each judged by comparing the complete observable state (order-insensitive for property lists, as the statement allows) before and after; distinct_nontrivial = failed steps before which at least one query of the transaction had succeeded or at least one file-system write had been issued, counted once per distinct (program hash, step)",
+        assumptions: &["abort by injected storage I/O error is decided by C32, not here", "order of an element's properties may differ after rollback (stated by the property); everything else must be identical"],
+        real: DB_REAL,
+        stub: FS_STUB,
+        eval_unit: "failed steps compared before/after",
+    });
     v.push(model_def("C08", c08_gen, c08_exec));
     v.push(model_def("C09", c09_gen, c09_exec));
     v.push(model_def("C10", c10_gen, c10_exec));
